@@ -21,6 +21,10 @@ ALL_CLAIMED = ["C03","C04","C07","C10","C12","C16","C17","C18","C20"]
 TRUST = "Trusted: the simulator stubs (fidelity rules in DESIGN.md §2.3), the seam rewriter (its report of unseamed sites is in the evidence), the harness's own reference codec/models. Sampling, not proof."
 
 CLAIMED = {
+ "C10": dict(engine="order-world", cat="exploration",
+   text="Seeded (program, option set) pairs compiled and generated repeatedly into fresh directories, each time under another seeded map-iteration order at every range-over-map site of the compiler and the generator (plus reflect MapKeys), with an in-process capturing service generator; oracles: same success/failure, same set of output paths, same sha256 of every file, same plugin request up to the numbering of module and service ids.",
+   ref="DESIGN.md §4 C10", note=TRUST+" Map iteration inside third-party code is not seamed (text/template sorts keys). Cross-process determinism is argued through the seam: map order is the generator's only per-process nondeterminism (no clock, randomness or goroutines in compile/ and gen/; see the seam report in the evidence).",
+   tech="deterministic simulation of map-iteration order (seeded permutations at every range-over-map site), cross-schedule comparison of output hashes"),
  "C07": dict(engine="order-world", cat="exploration",
    text="Seeded multi-file programs (typedef chains also through structs and back, diamond and cyclic includes, dotted local names, same names in several files, constants and defaults referring to constants and enum items, services extending across files, some deliberately invalid) compiled under seeded schedules of the linker's resolution order (every range-over-map of the compiler behind a permutation seam: sorted, reverse, random, rotated, one-key-first) and of the definition order inside each file; oracles: identical outcome and identical canonical module-graph dump across all schedules, equality with an executable reference model of Thrift scoping and constant casting over the abstract program, one Module object per file, no nil typedef root or unresolved node.",
    ref="DESIGN.md §4 C07", note=TRUST+" The reference model (progen/model.go) is trusted for the generated sub-language; ambiguous programs are not generated; constant references are type-compatible by construction.",
